@@ -90,7 +90,11 @@ class Classifier:
         k = e.get("k")
         if k == "Lit":
             v = str(e.get("v", "")).split("_")[0]
-            return ("red", "*") if v in ("0", "1") else ("any", "the literal %s" % v)
+            if v in ("0", "1"):
+                return ("red", "*")
+            if v.isdigit() and int(v) < 65536:
+                return ("unk", "the literal %s (a residue for every modulus above it)" % v)
+            return ("any", "the literal %s" % v)
         if k == "Cast":
             src_t = facts.ty(e["e"])
             if src_t.startswith("f"):
@@ -123,6 +127,16 @@ class Classifier:
                 if a.get("k") == "MCall" and a.get("name") == "value" and b.get("k") == "Lit" and \
                         str(b.get("v", "")).split("_")[0] not in ("0",) and not (e["op"] == "/" and str(b.get("v", "")).split("_")[0] == "1"):
                     return ("red", sym.canon(a["recv"]))
+            if e.get("op") == "-":
+                # q - r for a residue r lies in (0, q]: a single conditional subtraction still yields the exact residue
+                a = strip(e["a"])
+                lo_ = local_of(a)
+                if lo_ and lo_[0] in defs and len(defs[lo_[0]]) == 1:
+                    a = strip(defs[lo_[0]][0])
+                if a.get("k") == "MCall" and a.get("name") == "value":
+                    inner = self.classify(p, e["b"], depth + 1, seen)
+                    if inner and inner[0] in ("red", "buf"):
+                        return ("red", sym.canon(a["recv"]))
             if e.get("op") in ("+", "-", "*", "<<", ">>", "|", "^", "/"):
                 return ("any", "plain integer arithmetic (`%s`)" % e["op"])
             if e.get("op") == "&":
@@ -134,6 +148,11 @@ class Classifier:
                 args = e.get("args", [])
                 mod = e["recv"] if (k == "MCall" and nm.startswith("reduce")) else (args[-1] if args else None)
                 return ("red", sym.canon(mod) if mod is not None else "?")
+            if nm in ("gen_range", "sample"):
+                return ("unk", "a random value from a caller-chosen range")
+            if nm in ("gen", "next_u64", "next_u32") and ("rand" in f.get("def", "") or "Rng" in f.get("def", "")
+                                                                                 or "Rng" in f.get("trait", "")):
+                return ("any", "a random machine word")
             if nm in ("wrapping_add", "wrapping_sub", "wrapping_mul", "abs", "pow"):
                 return ("any", "plain integer arithmetic (`%s`)" % nm)
             if nm in ("clone", "unwrap", "to_owned", "min", "max") and k == "MCall":
@@ -227,11 +246,39 @@ class Classifier:
         return out
 
 
+def identity_sinks(facts):
+    """modular primitives (a `&Modulus` parameter, u64 result) in which some return path hands back a u64 PARAMETER unchanged
+    while other paths return reduced values: the result is a residue only if that parameter is one, so the parameter is a
+    sink of the rule at every call site (exponentiate_u64_mod returns `operand` itself for exponent 1)."""
+    out = {}
+    for p, it in facts.items.items():
+        if p not in facts.hir or "uintsmallmod" not in it.get("file", "") or it.get("ret") != "u64":
+            continue
+        if not any("Modulus" in prm.get("ty", "") for prm in it["params"]):
+            continue
+        params = {prm["pat"]["lid"]: j for j, prm in enumerate(it["params"])
+                  if prm["pat"].get("k") == "PBind" and prm.get("ty", "").replace("&", "").strip() == "u64" and not prm["pat"].get("mut")}
+        body = facts.hir[p]
+        rets = [strip(x["e"]) for x in walk(body) if x.get("k") == "Ret" and x.get("e") is not None]
+        if body.get("k") == "Block" and body.get("expr") is not None:
+            rets.append(strip(body["expr"]))
+        ident = set()
+        for r in rets:
+            lo = local_of(r)
+            if lo and lo[0] in params:
+                ident.add(params[lo[0]])
+        if ident and len(rets) > len(ident):
+            out[p] = tuple(sorted(ident))
+    return out
+
+
 def run(facts, rep, floor=0, files=None):
     rep.rule(R, "every operand of add_u64_mod / sub_u64_mod / negate_u64_mod is a residue (result of a reducing routine) or an "
              "element of a residue buffer; an operand of arbitrary magnitude (plain arithmetic, a quotient, a float cast, or a "
              "parameter some caller feeds with one) is refused")
     cl = Classifier(facts)
+    idsinks = identity_sinks(facts)
+    rep.extra["identity_return_sinks"] = {k: list(v) for k, v in idsinks.items()}
     n = 0
     for p in sorted(facts.hir):
         if "::tests::" in p or facts.items[p].get("kind") == "test":
@@ -245,10 +292,15 @@ def run(facts, rep, floor=0, files=None):
                 continue
             f = callee(x) or {}
             nm = f.get("name")
-            if nm not in SINKS or "uintsmallmod" not in f.get("def", ""):
+            tk = target_key(f) if f else None
+            if nm in SINKS and "uintsmallmod" in f.get("def", ""):
+                ops = SINKS[nm]
+            elif tk in idsinks and tk != p:
+                ops = idsinks[tk]
+            else:
                 continue
             rep.fn(p)
-            for oi in SINKS[nm]:
+            for oi in ops:
                 if oi >= len(x["args"]):
                     continue
                 n += 1
@@ -267,10 +319,12 @@ def run(facts, rep, floor=0, files=None):
                     rep.ok(R, key, "%s operand %d is %s" % (nm, oi, "a residue" if c[0] == "red" else "a residue-buffer element"),
                            facts.loc(p, x), nontrivial=(c[0] == "red"))
                 elif c[0] == "any":
-                    rep.violation(R, key, "operand %d of %s is not a residue — %s%s.  %s subtracts (adds) the modulus at most once, so "
-                                  "the result is congruent but can exceed the modulus: a residue buffer receives a value >= q "
-                                  "(the object fails is_valid_for / later lazy arithmetic leaves its range)" %
-                                  (oi, nm, via, c[1], nm), facts.loc(p, x))
+                    why = ("%s subtracts (adds) the modulus at most once, so the result is congruent but can exceed the modulus: a "
+                           "residue buffer receives a value >= q (the object fails is_valid_for / later lazy arithmetic leaves its "
+                           "range)" % nm) if nm in SINKS else \
+                          ("%s hands this operand back unchanged on one of its paths, so its result is not reduced either and is "
+                           "compared / stored as if it were" % nm)
+                    rep.violation(R, key, "operand %d of %s is not a residue — %s%s.  %s" % (oi, nm, via, c[1], why), facts.loc(p, x))
                 else:
                     rep.unresolved(R, key, "operand %d of %s: %s%s" % (oi, nm, via, c[1]), facts.loc(p, x))
             k_site += 1
